@@ -34,14 +34,14 @@ const (
 
 // Fault addresses one message (or dial) by logical identity.
 type Fault struct {
-	Peer    string `json:"peer"`           // "rf" | "abmf"
-	Task    int    `json:"task"`           // dialing task id; -1 = any
-	Op      int    `json:"op"`             // op id of the dialing task; -1 = any
-	Dir     string `json:"dir"`            // "ans" (server->client), "req" (client->server), "dial"
-	Cmd     uint32 `json:"cmd"`            // Diameter command code; 0 = any (handshake and watchdog included)
-	Nth     int    `json:"nth"`            // n-th message in that scope (0-based)
-	Kind    string `json:"kind"`           //
-	DelayNs int64  `json:"delay_ns"`       //
+	Peer    string `json:"peer"`     // "rf" | "abmf"
+	Task    int    `json:"task"`     // dialing task id; -1 = any
+	Op      int    `json:"op"`       // op id of the dialing task; -1 = any
+	Dir     string `json:"dir"`      // "ans" (server->client), "req" (client->server), "dial"
+	Cmd     uint32 `json:"cmd"`      // Diameter command code; 0 = any (handshake and watchdog included)
+	Nth     int    `json:"nth"`      // n-th message in that scope (0-based)
+	Kind    string `json:"kind"`     //
+	DelayNs int64  `json:"delay_ns"` //
 	seen    int
 	fired   bool
 }
